@@ -5,6 +5,9 @@ let () =
   let b = Buffer.create 65536 in
   (match cmd with
    | "net" -> Net.run st b
+   | "tour" -> Tour.run st b
+   | "schedcheck" -> Schedobs.run_check st b
+   | "outcheck" -> Outcheck.run st b
    | _ -> prerr_endline ("unknown command " ^ cmd); exit 2);
   let oc = open_out Sys.argv.(3) in
   Buffer.output_buffer oc b; close_out oc
